@@ -223,9 +223,21 @@ def menu(gen):
 
 
 def run_history(job):
-    gen, seq = job
+    gen, seq = job[:2]
     w = world(gen)
     m = menu(gen)
+    if len(job) > 2:
+        # 'batch': all frames of the history reach the client in ONE segment (the console state after each step is
+        # what that step's frame reports); the getters are read at the end and equal the most recent report
+        raw = b""
+        for idx in seq:
+            for fr in m[idx][1](w):
+                raw += fr
+        push(w, raw)
+        msg = check_view(w, f"at{gen} history {[m[i][0] for i in seq]} received back to back in one segment")
+        if msg:
+            return (f"at{gen}:history-batch:{m[seq[-1]][0]}", msg, pubmodel.observed_view(w.at))
+        return (None, None, "batch")
     for k, idx in enumerate(seq):
         name, fn = m[idx]
         for fr in fn(w):
@@ -263,7 +275,7 @@ def replay_input(rp):
             if sig == rp["sig"]:
                 return msg
         return None
-    sig, msg, _ = run_history((rp["gen"], tuple(rp["seq"])))
+    sig, msg, _ = run_history((rp["gen"], tuple(rp["seq"])) + (("batch",) if rp.get("batch") else ()))
     return msg
 
 
@@ -284,13 +296,13 @@ def run(tier, seed, part=None):
             chk.violation(sig, msg, {"kind": "input", "module": "pvmc.props.c10", "what": "single", "gen": gen, "sig": sig})
         m = menu(gen)
         seqs = [s for d in range(1, depth + 1) for s in itertools.product(range(len(m)), repeat=d)]
-        jobs = [(gen, s) for s in seqs]
+        jobs = [(gen, s) for s in seqs] + [(gen, s, "batch") for s in seqs if len(s) > 1]
         res = explorer.pool().map(run_history, jobs, chunksize=32)
-        for (g, s), (sig, msg, snap) in zip(jobs, res):
+        for (g, s, *mode), (sig, msg, snap) in zip(jobs, res):
             total += len(s)
             outcomes.add(snap if isinstance(snap, str) else "violation")
             if sig:
-                chk.violation(sig, msg, {"kind": "input", "module": "pvmc.props.c10", "what": "history", "gen": gen, "seq": list(s)})
+                chk.violation(sig, msg, {"kind": "input", "module": "pvmc.props.c10", "what": "history", "gen": gen, "seq": list(s), "batch": bool(mode)})
         walks = [(gen, s) for d in range(1, depth + 1) for s in itertools.product(MODES, repeat=d)]
         for (g, sq), (sig, msg) in zip(walks, explorer.pool().map(run_mode_walk, walks, chunksize=16)):
             total += len(sq)
